@@ -91,6 +91,13 @@ static void over_identity(vh::Rng & rng, unsigned nboxes)
             cfg.min[k] = a;
             cfg.max[k] = c;
         }
+        if (b % 4 == 3) {
+            // a cubic box written with one scalar per member (covfie::array's broadcasting constructor)
+            V lo = pick_bound<V>(rng), hi = pick_bound<V>(rng);
+            if (hi < lo) std::swap(lo, hi);
+            cfg.min = typename field_t::coordinate_t(lo);
+            cfg.max = typename field_t::coordinate_t(hi);
+        }
         vh::set_case("%s box#%u", name.c_str(), b);
         field_t f(covfie::make_parameter_pack(typename backend_t::configuration_t(cfg), std::monostate{}));
         typename field_t::view_t view(f);
